@@ -106,6 +106,57 @@ let load_schema (path : string) : decl list =
         DTypedef (parse_ty t)
       | s -> failwith ("bad schema line kind " ^ s)) lines
 
+(* ---------- Arc boxes (C19, Own.v): pilota.rust_wrapper_arc ---------- *)
+(* The lowered schema treats Arc as the identity (it is, for every value-level property).  For OWNERSHIP an Arc is an
+   allocation: the ownership model takes, next to the schema, the list A of schema indices that stand for `Arc<..>` boxes.
+   Glue (trusted): from lschema.txt (the rir types with their `arc` wrappers, same item order as schema.txt) every `arc X` inside
+   a struct field type becomes a reference to a fresh typedef box `DTypedef X` appended to the schema (transparent for decoding)
+   and its index goes into A.  Fields without an Arc keep the type schema.txt gives them. *)
+let arc_lowered : (decl list * nat list) ref = ref ([], [])
+let load_arcs (sch : decl list) (path : string) : decl list * nat list =
+  let base = List.length sch in
+  let boxes = ref [] and arcs = ref [] in
+  let rec conv (t : toks) : ty * bool =
+    match next t with
+    | "vec" -> let (a, x) = conv t in (TyList a, x)
+    | "set" | "btreeset" -> let (a, x) = conv t in (TySet a, x)
+    | "map" | "btreemap" -> let (a, x) = conv t in let (b, y) = conv t in (TyMap (a, b), x || y)
+    | "arc" ->
+      let (u, _) = conv t in
+      let k = base + List.length !boxes in
+      boxes := !boxes @ [DTypedef u]; arcs := !arcs @ [nat_of_int k]; (TyRef (nat_of_int k), true)
+    | "path" -> let n = next t in
+      ((try TyRef (nat_of_int (Hashtbl.find names n)) with Not_found -> failwith ("unknown type " ^ n)), false)
+    | "string" | "stdstring" -> (TyString, false) | "bytes" | "bytesvec" -> (TyBinary, false)
+    | "bool" -> (TyBool, false) | "i8" -> (TyI8, false) | "i16" -> (TyI16, false) | "i32" -> (TyI32, false) | "i64" -> (TyI64, false)
+    | "f64" | "of64" -> (TyDouble, false) | "uuid" -> (TyUuid, false) | "void" -> (TyVoid, false)
+    | s -> failwith ("bad rir type " ^ s) in
+  let repl : (int * z, ty) Hashtbl.t = Hashtbl.create 16 in
+  let ic = open_in path in
+  (try while true do
+       let l = String.trim (input_line ic) in
+       let t = { rest = String.split_on_char ' ' l } in
+       if l <> "" && next t = "lstruct" then begin
+         let sname = next t in
+         let _fl = next t in
+         let n = next_int t in
+         let idx = (try Hashtbl.find names sname with Not_found -> failwith ("unknown type " ^ sname)) in
+         for _i = 1 to n do
+           let id = next_z t in
+           let _rq = next t in let _name = next t in
+           let (ty, has_arc) = conv t in
+           let _lit = next t in
+           if has_arc then Hashtbl.replace repl (idx, id) ty
+         done
+       end
+     done with End_of_file -> ());
+  close_in ic;
+  let sch' = List.mapi (fun i d -> match d with
+      | DStruct (fs, kp, ia) ->
+        DStruct (List.map (fun f -> match Hashtbl.find_opt repl (i, f.f_id) with Some ty -> { f with f_ty = ty } | None -> f) fs, kp, ia)
+      | d -> d) sch in
+  (sch' @ !boxes, !arcs)
+
 (* ---------- printing ---------- *)
 let rec show (v : gval) : string =
   match v with
@@ -202,7 +253,7 @@ let run_ownmsg (t : toks) : string =
   let mode = next t in
   let is_async = String.length mode >= 5 && String.sub mode 0 5 = "async" in
   let bytes = bytes_of_hex (next t) in
-  let o = own_message_top (if is_async then MAsync else MSync) (keep_cfg cfg) !schema p b bytes in
+  let o = own_message_top (if is_async then MAsync else MSync) (keep_cfg cfg) (snd !arc_lowered) (fst !arc_lowered) p b bytes in
   let k = (match o.mo_outcome with Ok _ -> "ok" | Err e -> "err " ^ err_class e | Panic s -> "panic " ^ string_of_site s) in
   let vref = (match o.mo_outcome with Ok ((_, v), _) -> if bytes_val v then 1 else 0 | _ -> 0) in
   let nat_int n = List.length (List.init 0 (fun _ -> ())) + (let rec go k = function O -> k | S m -> go (k + 1) m in go 0 n) in
@@ -336,8 +387,8 @@ let run_case (t : toks) : string =
     (* retention is only emitted for the sync decoders of a keep build (GenKeep templates); everything else is an
        instance of the plain templates *)
     let (r, leaked) =
-      if keep_cfg cfg && not is_async then own_decode_keep_top !schema p ty bytes
-      else own_decode_top (if is_async then MAsync else MSync) !schema p ty bytes in
+      if keep_cfg cfg && not is_async then own_decode_keep_top (snd !arc_lowered) (fst !arc_lowered) p ty bytes
+      else own_decode_top (if is_async then MAsync else MSync) (snd !arc_lowered) (fst !arc_lowered) p ty bytes in
     let k = (match r with Ok _ -> "ok" | Err e -> "err " ^ err_class e | Panic s -> "panic " ^ string_of_site s) in
     k ^ " LEAK " ^ string_of_int (List.length leaked) ^ " HEAP " ^ string_of_int (List.length (List.filter heap_val leaked))
   | s -> failwith ("unknown op " ^ s)
@@ -495,6 +546,8 @@ let () =
   if Array.length Sys.argv < 2 then (prerr_endline "usage: runner <schema.txt>"; exit 2);
   schema := load_schema Sys.argv.(1);
   if Array.length Sys.argv >= 3 then lschema := load_lschema Sys.argv.(2);
+  (let lpath = if Array.length Sys.argv >= 3 then Sys.argv.(2) else Filename.concat (Filename.dirname Sys.argv.(1)) "lschema.txt" in
+   arc_lowered := if Sys.file_exists lpath then load_arcs !schema lpath else (!schema, []));
   (try
      while true do
        let line = input_line stdin in
